@@ -70,7 +70,7 @@ P('C04', claimed=True, level='exploration', drivers=['vf.drivers.C04'],
   level_note='Signature introspection (inspect) is outside the provable subset: bounded only.')
 
 P('C05', claimed=True, level='other',
-  contracts=['base_clock_loops', 'base_clock_sched', 'base_stream'], drivers=['vf.drivers.C05'],
+  contracts=['base_clock_loops', 'base_clock_sched', 'base_stream', 'base_main'], drivers=['vf.drivers.C05'],
   level_text=('Data-flow obligations on the real clock loop bodies: a task that returns a number is '
               're-scheduled exactly once at its scheduled time plus that number (no occurrence of the '
               'physical time in the term), logical time is set to the scheduled time before the task '
@@ -95,7 +95,7 @@ P('C06', claimed=True, level='other',
               'str.encode length facts.'))
 
 P('C07', claimed=True, level='other',
-  contracts=['base_oscinterface'], drivers=['vf.drivers.C07'],
+  contracts=['base_oscinterface', 'base_main'], drivers=['vf.drivers.C07'],
   level_text=('Time-tag arithmetic is proved on the real functions: RT bundles carry '
               'elapsed_time_to_osc(send_time + latency) or IMMEDIATELY for None/negative latency, NRT '
               'bundles are relative inside routines and absolute outside, nested bundles may not '
